@@ -239,7 +239,7 @@ class Mapper(Client):
             ds = list(w.pool["dist"])
             if not ds:
                 return None
-            return {"op": "dist_draw", "d": self.pick(ds), "n": r.randint(1, 5)}
+            return {"op": "dist_draw", "d": self.pick(ds), "n": r.choice([1, 3, 10, 30])}
         if k == "reseed":
             ds = [d for d in w.pool["dist"] if w.meta["dist"][d]["dkind"] != "constant"]
             if not ds:
@@ -324,8 +324,16 @@ class Mapper(Client):
         if kind == "constant":
             args = [c]
         elif kind == "gaussian":
-            if role == "phase_offset" and r.random() < 0.3:
+            x = r.random()
+            if role == "phase_offset" and x < 0.25:
                 args = [c, dev]
+            elif x < 0.55:
+                # one-sided bounds, often exactly 0 (a natural bound for loss)
+                if role == "loss" or r.random() < 0.5:
+                    args = [max(c, 0.02), dev, r.choice([0, 0, round(lo, 4)]), None]
+                else:
+                    args = [min(c, -0.02) if role == "phase_offset" else c, dev,
+                            None, r.choice([0, round(hi, 4)]) if role == "phase_offset" else round(hi, 4)]
             else:
                 args = [c, dev, round(lo, 4), round(hi, 4)]
         else:
@@ -525,7 +533,7 @@ class ReckMonitor(Monitor):
         if trivial:
             w.probe("default_model_map")
             cu = co[4][: c.n_modes, : c.n_modes]
-            if not np.allclose(mu, cu, atol=1e-8, rtol=0):
+            if not np.allclose(mu, cu, atol=1e-9, rtol=0):
                 return [self.v({**sig, "kind": "default_map_changes_unitary",
                                 "n_modes": c.n_modes},
                                f"max |U_mapped - U| = {np.max(np.abs(mu - cu)):.3g}")]
